@@ -38,3 +38,30 @@ package connector
 //verif:call[failed-flush-touches-nothing] (*Mutex).Lock@ackMu requires err == nil
 //verif:call[hand-over-only-durable] builtin.append requires err == nil && s.pendingAcks[i].seq <= s.durableAckSeq && s.durableAckSeq >= seq && !s.deferredAckClosed
 //verif:store[durable-mark-only-forward] durableAckSeq requires err == nil && newval == seq && seq > s.durableAckSeq
+
+// Source.Ack only records: the stored position becomes the LAST acked position,
+// the ack is queued with the next sequence number and registered with the
+// persister; nothing is sent to the plugin here (delivery is deferred until the
+// flush callback reports the position durable).
+//verif:func (*Source).Ack(s, ctx, p) (err)
+//verif:requires len(p) > 0
+//verif:store[position-is-last-acked] State requires typeis(newval, "connector.SourceState") && called("(*RWMutex).Lock")
+//verif:store[sequence-advances-by-one] nextAckSeq requires newval == s.nextAckSeq + 1
+//verif:call[queue-before-persist] (*Persister).Persist requires stored("State") && stored("nextAckSeq") && called("builtin.append") && arg2 == s.Instance
+//verif:never SourceStream.Send
+//verif:never (*Source).deliverOneAck
+
+// Deferred acks are delivered in queue (FIFO) order.
+//verif:func (*Source).deliverDeferredAcks(s)
+//verif:loop 1 vars j
+//verif:call[fifo] (*Source).deliverOneAck requires 0 <= j + 1 && j + 1 < len(queue) && len(arg1) == len(queue[j + 1])
+
+// Teardown: drain before closing; flush and wait for pending writes before the
+// deferred-ack queue is closed; delivery drained before the stream is stopped; the
+// plugin is torn down last.
+//verif:func (*Source).Teardown(s, ctx) (err)
+//verif:interference (*RWMutex).Lock havocs s.plugin, s.stopStream, s.deliveryDone
+//verif:call[flush-then-wait] (*Persister).WaitPendingWritesContext requires called("(*Persister).Flush")
+//verif:store[close-queue-after-writes-landed] deferredAckClosed requires called("(*Persister).Flush") && called("(*Persister).WaitPendingWritesContext")
+//verif:call[drain-delivery-before-stopping-stream] $field.stopStream requires called("(*Source).waitDeliveryDrain") && stored("deferredAckClosed")
+//verif:call[plugin-teardown-last] SourcePlugin.Teardown requires called("(*Source).waitDeliveryDrain") && called("(*WaitGroup).Wait") && stored("deferredAckClosed")
